@@ -137,6 +137,14 @@ func c14Pay(c *fw.Ctx, i int) {
 	for cidx := 0; cidx < ncalls; cidx++ {
 		n := r.Range(1, 6)
 		var units [][]byte
+		if r.Chance(1, 80) {
+			// access units with very many small NAL units: any fixed-size table inside overflows
+			n = r.Pick(31, 32, 33, 34, 35, 64, 65, 66, 100, 255, 256, 257)
+			for k := 0; k < n; k++ {
+				units = append(units, c14Unit(r, r.Pick(3, 4, 5, r.Range(3, 12), r.Range(3, mtu+3))))
+			}
+			n = 0
+		}
 		for k := 0; k < n; k++ {
 			units = append(units, c14Unit(r, c14Size(r, mtu)))
 		}
